@@ -105,6 +105,13 @@ func elemIndex(v ssa.Value, baseIs func(ssa.Value) bool) ssa.Value {
 }
 
 func runC17(w *World, r *Report) {
+	// ---- visits-all: every tool call gets a task, a run and an answer
+	r.Rule("C17.visits-all", "the loops over tool calls / tasks in the tools node are left only when exhausted or with an error", 5)
+	ruleLoopsTotal(w, r, "C17.visits-all", []*ssa.Function{
+		w.Fn("compose", "ToolsNode.genToolCallTasks"), w.Fn("compose", "parallelRunToolCall"), w.Fn("compose", "ToolsNode.Invoke"), w.Fn("compose", "ToolsNode.Stream"),
+		w.Fn("compose", "convTools"),
+	}, map[string]string{}, "a tool call of the message is not executed or not answered")
+
 	invoke := w.Fn("compose", "ToolsNode.Invoke")
 	stream := w.Fn("compose", "ToolsNode.Stream")
 	gen := w.Fn("compose", "ToolsNode.genToolCallTasks")
